@@ -90,7 +90,26 @@ func stubID(args []any) (int, error) {
 	if len(args) < 1 {
 		return 0, fmt.Errorf("stub: missing id argument")
 	}
-	f, ok := args[0].(float64)
+	a0 := args[0]
+	// GLOBAL.f((SELECT 7 AS i FROM dual), ...): every argument is a subquery result
+	for i := 0; i < 3; i++ {
+		switch x := a0.(type) {
+		case []any:
+			if len(x) == 1 {
+				a0 = x[0]
+			}
+		case map[string]any:
+			if len(x) == 1 {
+				for _, v := range x {
+					a0 = v
+				}
+			}
+		}
+	}
+	if n, isInt := a0.(int); isInt {
+		a0 = float64(n)
+	}
+	f, ok := a0.(float64)
 	if !ok || f < 0 || f > 100000 {
 		return 0, fmt.Errorf("stub: bad id argument %T %v", args[0], args[0])
 	}
